@@ -33,6 +33,7 @@ type PhaseP struct {
 	Class  string   `json:"class"`
 	Keys   []string `json:"keys"` // object keys (namespace defaulted to the owner's)
 	CPs    []string `json:"cps"`  // collision protection per object
+	Maps   []string `json:"maps"` // per object: destination type of its condition mapping (source type Available), "" = none
 	Slices []string `json:"slices"` // keys of the ObjectSlice objects
 	PhaseKey string `json:"phaseKey"` // key of the ObjectSetPhase object realising this phase when delegated
 }
@@ -314,6 +315,14 @@ func projectPhases(phases []any, ns string, ownerKind, ownerName string) []Phase
 				cp = "Prevent"
 			}
 			pp.CPs = append(pp.CPs, cp)
+			dest := ""
+			if cms, _ := om["conditionMappings"].([]any); len(cms) > 0 {
+				dest = getStr(cms[0].(map[string]any), "destinationType")
+			}
+			pp.Maps = append(pp.Maps, dest)
+		}
+		if pp.Maps == nil {
+			pp.Maps = []string{}
 		}
 		sl, _ := pm["slices"].([]any)
 		slKind := "ObjectSlice"
